@@ -459,7 +459,7 @@ func byteish(t types.Type) bool {
 
 func checkC13(r *core.Result) {
 	r.Explanation = "Static clauses behind lazy decoding: (a) accessor ↔ decoder sibling table: every typed accessor hands scalarValue/sliceValue the wire type of its kind, its conversion closure uses the leaf codec of its kind, and its exact overflow reject-set equals that of the corresponding csproto reader and excludes every value a conforming writer emits; " +
-		"(b) panic freedom: all index/slice/raw-read sites on byte data in lazyproto are discharged by the guard-fact engine (the val[SizeOfTagKey(tag):] site through Skip's verified contract, whose caller-side hypothesis — tag comes from DecodeTag on the same decoder with no cursor movement in between — is checked structurally), the sliceValue cursor makes progress, and every in-package call of a function that can return (nil, nil) nil-checks the result before dereferencing it; (c) the decode loop has an arm for every declared WireType constant and an erroring default."
+		"(b) panic freedom: all index/slice/raw-read sites on byte data in lazyproto are discharged by the guard-fact engine (the val[SizeOfTagKey(tag):] site through Skip's verified contract, whose caller-side hypothesis — tag comes from DecodeTag on the same decoder with no cursor movement in between — is checked structurally), the sliceValue cursor makes progress, and every in-package call of a function that can return (nil, nil) nil-checks the result before dereferencing it; (c) the decode loop has an arm for every declared WireType constant and an erroring default; (d) field data is decoded as a nested message only when its recorded wire type is length-delimited (A-wire-nested)."
 	r.RuleText = "obligations per accessor (25), per byte-indexing site of lazyproto, per (nil,nil) call site, per wire-type constant"
 	r.Assumptions = []string{"not decided: value equality with a reference parse, last-wins/all-occurrences semantics, the error taxonomy",
 		"index expressions on non-byte slices (tag tables, field data tables) rely on the flatTags/flatData equal-length invariant and are out of scope"}
@@ -506,6 +506,8 @@ func use(b []byte) int {
 	}
 	return r.x
 }`, func(fr *core.Result, fprog *core.Program, fpk *packages.Package) { checkNilResults(fr, fprog, fpk) })
+	nn := checkNestedWire(r, prog, lp)
+	r.Floor("nested decode sites", nn, 2)
 	nl := checkSkipLemmaSites(r, prog, lp, "(*DecodeResult).decode")
 	r.Floor("Skip lemma sites", nl, 1)
 
@@ -540,4 +542,70 @@ func use(b []byte) int {
 	} else {
 		r.Fail("anchor", "(*DecodeResult).decode", "", "function not found")
 	}
+}
+
+// checkNestedWire (A-wire-nested): bytes recorded for a field are handed to a nested decoder only if the field's
+// recorded wire type is length-delimited: the argument of every decodeWithPool call in DecodeResult's methods is
+// either the result of scalarValue(fd, WireTypeLengthDelimited, …) or the call is preceded, in the same function, by
+// a test `fd.wt != WireTypeLengthDelimited` that leaves with an error. Otherwise the payload of a varint / fixed
+// field is parsed as a message and yields wrong values instead of the documented WireTypeMismatchError.
+func checkNestedWire(r *core.Result, prog *core.Program, lp *packages.Package) int {
+	info := lp.TypesInfo
+	n := 0
+	for _, f := range core.Funcs(lp) {
+		if f.Decl == nil || f.Decl.Body == nil || !strings.HasPrefix(f.Name, "(*DecodeResult).") {
+			continue
+		}
+		// variables bound to scalarValue(.., WireTypeLengthDelimited, ..)
+		checked := map[types.Object]bool{}
+		guardPos := token.NoPos
+		ast.Inspect(f.Decl.Body, func(nn ast.Node) bool {
+			switch x := nn.(type) {
+			case *ast.AssignStmt:
+				if len(x.Rhs) == 1 {
+					if c, ok := x.Rhs[0].(*ast.CallExpr); ok {
+						if fn := staticCallee(info, c); fn != nil && fn.Name() == "scalarValue" && len(c.Args) >= 2 && strings.HasSuffix(types.ExprString(c.Args[1]), "WireTypeLengthDelimited") {
+							if id, ok := x.Lhs[0].(*ast.Ident); ok {
+								if o := info.Defs[id]; o != nil {
+									checked[o] = true
+								} else if o := info.Uses[id]; o != nil {
+									checked[o] = true
+								}
+							}
+						}
+					}
+				}
+			case *ast.IfStmt:
+				if b, ok := x.Cond.(*ast.BinaryExpr); ok && b.Op == token.NEQ && x.Else == nil {
+					l, rr := types.ExprString(b.X), types.ExprString(b.Y)
+					if strings.HasSuffix(l, ".wt") && strings.HasSuffix(rr, "WireTypeLengthDelimited") && returnsError(info, x.Body.List) && !guardPos.IsValid() {
+						guardPos = x.Pos()
+					}
+				}
+			}
+			return true
+		})
+		ast.Inspect(f.Decl.Body, func(nn ast.Node) bool {
+			c, ok := nn.(*ast.CallExpr)
+			if !ok {
+				return true
+			}
+			fn := staticCallee(info, c)
+			if fn == nil || fn.Name() != "decodeWithPool" || len(c.Args) != 1 {
+				return true
+			}
+			n++
+			ok = false
+			if id, isID := c.Args[0].(*ast.Ident); isID && checked[info.Uses[id]] {
+				ok = true
+			}
+			if guardPos.IsValid() && guardPos < c.Pos() {
+				ok = true
+			}
+			r.Ob("A-wire-nested", f.Name+" :: "+types.ExprString(c), prog.Pos(c.Pos()), ok,
+				"the bytes handed to the nested decoder are not known to come from a length-delimited field: for a message that carries this tag as varint / fixed32 / fixed64 the payload is parsed as a message (wrong values or an unrelated error) instead of the documented WireTypeMismatchError")
+			return true
+		})
+	}
+	return n
 }
